@@ -18,7 +18,10 @@ RULE = ("G-core generated programs without assignment, `+=`, while loops or fail
         "in the real parser's tree is exactly that expression. Oracle: the same expression is wrapped in dbg() by the "
         "real wrap-in-dbg command and the program is run; the first dbg line gives the value of its first "
         "evaluation. `reftest-eval-up-to` at that offset (a caret comment line is inserted below the line) must "
-        "report that value; expressions the run never evaluates are skipped and counted. Non-trivial = the position is "
+        "report that value; expressions the run never evaluates are skipped and counted. Second population: a loop "
+        "over [0, 1, 2] whose body is a generated tree of if / else-if / else / match / for blocks (every branch taken "
+        "in some iteration) with discarded expression statements before, between and after the other statements of "
+        "every block; positions are those statements (values nobody uses). Non-trivial = the position is "
         "inside a loop body, match arm, if branch or closure argument, or the value comes from a call; distinct = "
         "distinct (program, offset).")
 ASSUMPTIONS = ["dbg() shows a value with the same rendering eval-up-to uses (both Value::display)",
@@ -97,6 +100,18 @@ def check(case, ctx) -> Res:
     path = ctx.scratch.file(src)
     cls = set(["form:test" if case["in_test"] else "form:toplevel"])
     compared, nt = 0, False
+    if case.get("markers"):
+        # control-flow programs: each marker text occurs once, on the operator of a discarded statement expression
+        case = dict(case)
+        spans = []
+        for mk in case["markers"]:
+            o = src.find(mk)
+            node = innermost(real, o) if o >= 0 else None
+            if node:
+                spans.append([node[0], node[1], "discarded-stmt"])
+        case["spans"] = spans
+        if not spans:
+            return Res(ok=True, classes=("no-marker-found",))
     for pick in case["picks"]:
         s, e, kind = case["spans"][pick * len(case["spans"]) >> 16]
         if (s, e) not in real:
@@ -150,7 +165,7 @@ def check(case, ctx) -> Res:
         m2 = re.match(r"^.*" + re.escape(os.path.basename(ep)) + r":\d+: (.*)$", last)
         compared += 1
         ctxt = "loop" if in_construct(src, s, "for ") else "plain"
-        nt = nt or kind in ("call", "callv", "callb", "method", "if", "match") or ctxt == "loop"
+        nt = nt or kind in ("call", "callv", "callb", "method", "if", "match", "discarded-stmt") or ctxt == "loop"
         cls.add("kind:" + kind)
         if not m2:
             return fail(f"eval-up-to reports no value [{kind}]",
@@ -161,6 +176,77 @@ def check(case, ctx) -> Res:
                         f"{what}\ndbg-instrumented run: {expected}\neval-up-to:           {m2.group(1)}\n--- program\n{with_caret}",
                         classes=tuple(cls))
     return Res(ok=True, nontrivial=compared > 0 and nt, classes=tuple(sorted(cls)), extra=max(1, compared))
+
+
+def gen_ctrl(r):
+    """a loop over [0, 1, 2] whose body is a tree of if / else-if / else / match / for blocks (every branch is taken
+    in some iteration); every block holds discarded expression statements `helper(i) + K` (K unique) before,
+    between and after its other statements, so that positions exist whose value nobody uses in every kind of block"""
+    counter = [100]
+    markers = []
+
+    def discard(ind):
+        counter[0] += 1
+        k = counter[0]
+        markers.append(f"+ {k}")
+        form = r.int(0, 2)
+        if form == 0:
+            return [f"{ind}helper(i) + {k}"]
+        if form == 1:
+            return [f"{ind}i + {k}"]
+        return [f"{ind}[i].len() + {k}"]
+
+    def block(d, ind):
+        out = []
+        for _ in range(r.int(1, 3)):
+            c = r.int(0, 7) if d > 0 else r.int(0, 2)
+            if c <= 1:
+                out += discard(ind)
+            elif c == 2:
+                counter[0] += 1
+                out.append(f'{ind}println(string_repr(i * {counter[0]}))')
+            elif c == 3:
+                out.append(f"{ind}if i == {r.int(0, 2)} {{")
+                out += block(d - 1, ind + "  ")
+                out.append(f"{ind}}} else {{")
+                out += block(d - 1, ind + "  ")
+                out.append(f"{ind}}}")
+            elif c == 4:
+                out.append(f"{ind}if i == 0 {{")
+                out += block(d - 1, ind + "  ")
+                out.append(f"{ind}}} else if i == 1 {{")
+                out += block(d - 1, ind + "  ")
+                out.append(f"{ind}}} else {{")
+                out += block(d - 1, ind + "  ")
+                out.append(f"{ind}}}")
+            elif c == 5:
+                out.append(f"{ind}match (if i == {r.int(0, 2)} {{ Some(i) }} else {{ None }}) {{")
+                out.append(f"{ind}  Some(m) => {{")
+                out += block(d - 1, ind + "    ")
+                out.append(f"{ind}  }}")
+                out.append(f"{ind}  None => {{")
+                out += block(d - 1, ind + "    ")
+                out.append(f"{ind}  }}")
+                out.append(f"{ind}}}")
+            elif c == 6:
+                out.append(f"{ind}if i > {r.int(0, 1)} {{")
+                out += block(d - 1, ind + "  ")
+                out.append(f"{ind}}}")
+            else:
+                counter[0] += 1
+                out.append(f"{ind}for j{counter[0]} in [i] {{")
+                out += block(d - 1, ind + "  ")
+                out.append(f"{ind}}}")
+        if r.bool():
+            out += discard(ind)
+        return out
+
+    body = block(r.choice([1, 2, 3]), "  ")
+    src = "fun helper(n: Int): Int { n * 2 }\n\nfor i in [0, 1, 2] {\n" + "\n".join(body) + "\n}\n"
+    main_start = src.index("for i in")
+    picks = [r.int(0, (1 << 16) - 1) for _ in range(r.int(3, 5))]
+    return {"src": src, "spans": [[0, 0, "x"]], "markers": markers, "picks": picks, "in_test": r.bool(0.25),
+            "main_start": main_start}
 
 
 def in_construct(src, offset, keyword):
@@ -181,4 +267,5 @@ def show(case):
     return {"in_test": case["in_test"], "src": case["src"][:600]}
 
 
-SUBS = [Sub("positions", check, gen=gen, cases={"quick": 200, "thorough": 7000}, show=show)]
+SUBS = [Sub("positions", check, gen=gen, cases={"quick": 160, "thorough": 7000}, show=show),
+        Sub("discarded-statements", check, gen=gen_ctrl, cases={"quick": 120, "thorough": 5000}, show=show)]
